@@ -53,7 +53,7 @@ fn single_incarnation(tier: Tier, chunks: usize, ks: &[usize]) -> Vec<Scenario> 
     let mut v = vec![];
     for k in ks {
         for i in &inits {
-            v.push(Scenario { init: i.clone(), incs: vec![(*k, None)], chunks, family: 0 });
+            v.push(Scenario { init: i.clone(), incs: vec![(*k, None)], chunks, family: 0, file_times: 0 });
         }
     }
     v
@@ -72,7 +72,7 @@ fn multi_incarnation(tier: Tier, chunks: usize, dir: &std::path::Path) -> Vec<Sc
     for i in &inits {
         for k1 in &k1s {
             for k2 in &k2s {
-                let base = Scenario { init: i.clone(), incs: vec![(*k1, None), (*k2, None)], chunks, family: 0 };
+                let base = Scenario { init: i.clone(), incs: vec![(*k1, None), (*k2, None)], chunks, family: 0, file_times: 0 };
                 v.extend(with_crashes(&base, dir));
             }
         }
@@ -80,7 +80,7 @@ fn multi_incarnation(tier: Tier, chunks: usize, dir: &std::path::Path) -> Vec<Sc
     if tier == Tier::Thorough {
         // three incarnations: crash in the first and in the second
         for i in [Init::Absent, Init::Valid(65534)] {
-            let base = Scenario { init: i.clone(), incs: vec![(1, None), (1, None), (1, None)], chunks, family: 0 };
+            let base = Scenario { init: i.clone(), incs: vec![(1, None), (1, None), (1, None)], chunks, family: 0, file_times: 0 };
             for s1 in with_crashes(&base, dir) {
                 // crash positions of the second incarnation: probe its length by recording
                 let mut probe = s1.clone();
@@ -702,6 +702,19 @@ fn run_reader_prop(ctx: &Ctx, prop: Prop, lit: (usize, u64)) -> i32 {
             plans.push(Plan { works: record_all(multi.clone(), &base), mode: Mode::Sc, dev_bound: unb, stop_points: false, full_spin: false, label: "SC, crash at every point of the first incarnation + restart, all interleavings" });
             plans.push(Plan { works: record_all(multi, &base), mode: Mode::Ra, dev_bound: tier.pick(3, 5), stop_points: false, full_spin: false, label: "RA, crash at every point + restart, bounded stale reads" });
             plans.push(Plan { works: record_all(single_incarnation(tier, 2, &[1, 2]), &base), mode: Mode::Sc, dev_bound: unb, stop_points: true, full_spin: true, label: "SC, writer dies for good at every point (calls that exhaust their retries are run in full)" });
+            // what the file's time stamps say is no part of the protocol: a daemon that was up for 40 minutes leaves a
+            // file "last modified" 40 minutes ago (stores through the mapping do not move st_mtime), a stepped wall
+            // clock leaves one older than the boot or from the future. Restarts and attaches with such stamps.
+            let mut aged: Vec<Scenario> = vec![];
+            for ft in [1u8, 2, 3] {
+                for sc in multi_incarnation(Tier::Quick, 2, &dir0) {
+                    // the restart after a clean exit and after a crash inside the first update
+                    if matches!(sc.init, Init::Valid(_)) && (sc.incs[0].1.is_none() || sc.incs[0].1 == Some(3)) {
+                        aged.push(Scenario { file_times: ft, ..sc });
+                    }
+                }
+            }
+            plans.push(Plan { works: record_all(aged, &base), mode: Mode::Sc, dev_bound: unb, stop_points: false, full_spin: false, label: "SC, restart after a clean exit / a crash mid-update on a segment file whose time stamps are 40 min old, from 2001, or 1 h ahead" });
         }
         Prop::C18 => {
             plans.push(Plan { works: record_all(single_incarnation(tier, 2, &[1, 2]), &base), mode: Mode::Ra, dev_bound: tier.pick(2, 4), stop_points: true, full_spin: true, label: "RA, writer stops for ever at every point, bounded stale reads" });
@@ -1258,7 +1271,7 @@ fn run_c11(ctx: &Ctx) -> i32 {
     let base = ctx.scratch();
     // all 65535 non-zero start generations x {complete, crash after the first store, crash after the copy} (+ restart and a full update)
     let chunks = 2;
-    let probe = record_trace(&Scenario { init: Init::Valid(2), incs: vec![(1, None)], chunks, family: 0 }, &thread_dir(&base)).unwrap_or_else(|e| machinery_failure(&e));
+    let probe = record_trace(&Scenario { init: Init::Valid(2), incs: vec![(1, None)], chunks, family: 0, file_times: 0 }, &thread_dir(&base)).unwrap_or_else(|e| machinery_failure(&e));
     let n_ev = probe.len(); // version store + events of one write()
     let step = ctx.opt_usize("gen_step").unwrap_or(1).max(1);
     let gens: Vec<u32> = (1..65536u32).step_by(step).collect();
@@ -1272,9 +1285,15 @@ fn run_c11(ctx: &Ctx) -> i32 {
             // three consecutive updates by one writer instance (state a writer carries from one update to the
             // next must not matter), from every start value; and a crash at every point of an update followed
             // by a restart and three more updates
-            let mut scs = vec![Scenario { init: Init::Valid(g), incs: vec![(3, None)], chunks, family: 0 }];
+            let mut scs = vec![Scenario { init: Init::Valid(g), incs: vec![(3, None)], chunks, family: 0, file_times: 0 }];
+            if g % 8191 == 2 {
+                // (every 8191st start value) a clean restart on a file whose time stamps are old / pre-boot / in the future
+                for ft in [1u8, 2, 3] {
+                    scs.push(Scenario { init: Init::Valid(g), incs: vec![(1, None), (2, None)], chunks, family: 0, file_times: ft });
+                }
+            }
             for c in 1..n_ev {
-                scs.push(Scenario { init: Init::Valid(g), incs: vec![(1, Some(c)), (3, None)], chunks, family: 0 });
+                scs.push(Scenario { init: Init::Valid(g), incs: vec![(1, Some(c)), (3, None)], chunks, family: 0, file_times: 0 });
             }
             for sc in scs {
                 match record_trace(&sc, &dir) {
@@ -1308,7 +1327,7 @@ fn run_c11(ctx: &Ctx) -> i32 {
     let long_run = long_sequential_run(ctx, "C11", &mut agg);
     // from a fresh (wiped) segment
     let fresh = record_all(
-        with_crashes(&Scenario { init: Init::Absent, incs: vec![(2, None), (2, None)], chunks, family: 0 }, &thread_dir(&base)),
+        with_crashes(&Scenario { init: Init::Absent, incs: vec![(2, None), (2, None)], chunks, family: 0, file_times: 0 }, &thread_dir(&base)),
         &base,
     );
     let mut succ = vec![];
